@@ -38,6 +38,7 @@ class TradingHaltRule(EventABC):
         self.is_enabled: bool = True
         self.halting_time_length: int = 1
         self.halting_time_started: int = 0
+        self.halting_sessions: Dict[str, Session] = {}
         self.activation_count: int = 0
         self.target_markets: Dict[str, Market] = {}
         self.trigger_change_rate: float = 0.0
@@ -119,6 +120,7 @@ class TradingHaltRule(EventABC):
                         if simulator.current_session is None:
                             raise AssertionError
                         simulator.current_session.with_order_execution = False
+                        self.halting_sessions[m.name] = simulator.current_session
 
     def hooked_before_step_for_market(
         self, simulator: Simulator, market: Market
@@ -130,6 +132,10 @@ class TradingHaltRule(EventABC):
                 if m == market:
                     if simulator.current_session is None:
                         raise AssertionError
+                    halting_session = self.halting_sessions.pop(m.name, None)
+                    if halting_session is not simulator.current_session:
+                        # no halt of this market is pending in the current session
+                        continue
                     simulator.current_session.with_order_execution = True
                     m._is_running = True
                     self.halting_time_started = 0
